@@ -204,6 +204,7 @@ def gen_movie(rng, tier, kind=None):
     S = rng.choice([64, 72, 80]) if kind in ('complete', 'dense') else rng.choice([40, 48, 56])
     shape = (S, S + rng.choice([0, 8]))
     tracks = []
+    mixed = False
     pw = rng.choice([0.0, 0.3, 0.6, 1.0])
     if kind == 'diagonal':
         # blobs on a diagonal: each lies inside its neighbour's rectangular relocation slice but outside the slice's
@@ -256,6 +257,12 @@ def gen_movie(rng, tier, kind=None):
         # without preprocessing low noise is added and cut by a minmass well below the blob mass.
         if signed:
             pre, noise_kind, minmass = False, 'none', 0
+        elif rng.random() < 0.3:
+            # mixed brightness with a lowered percentile: faint blobs whose peak lies between the user's percentile and
+            # the default 64th percentile of the (bandpassed) frame; they are tracked only because the user lowered
+            # `percentile`, and must be re-found with that same percentile when their detection is withheld
+            pre, noise_kind, minmass = True, 'none', 0
+            mixed = True
         elif pre:
             noise_kind, minmass = 'none', 0
         else:
@@ -342,10 +349,39 @@ def gen_movie(rng, tier, kind=None):
         else:  # noise
             p0 = place(rng, rng.randint(0, 3), shape, rad + 2, sep + 1)
             tracks = [[p] * nfr for p in p0]
-    frames = []
-    for t in range(nfr):
-        blobs = [(tr[t][0], tr[t][1], (amps[i] if kind == 'dense' else amp), sig) for i, tr in enumerate(tracks) if tr[t] is not None]
-        frames.append(G.render(shape, blobs, G.noise_texture(rng, shape, noise_kind)))
+    percentile = 64
+
+    def render_all(amp_of):
+        return [G.render(shape, [(tr[t][0], tr[t][1], amp_of(i), sig) for i, tr in enumerate(tracks) if tr[t] is not None],
+                         G.noise_texture(rng, shape, noise_kind)) for t in range(nfr)]
+    frames = None
+    if mixed:
+        # calibrate with the implementation itself (nothing withheld, so relocation plays no part): at the lowered
+        # percentile every blob must be tracked through the movie, at the default percentile a faint one must be missed
+        nf = max(1, len(tracks) // 3)
+        which = list(range(len(tracks))); rng.shuffle(which); which = set(which[:nf])
+        found = False
+        for faint in rng.sample([20, 28, 36, 48, 64, 80], 6):
+            for pct in rng.sample([20, 30, 40], 3):
+                fr = render_all(lambda i: faint if i in which else amp)
+                probe = dict(kind=kind, frames=fr, tracks=tracks, sr=sr, sep=sep, dia=dia, rad=rad, memory=mem, preprocess=pre,
+                             minmass=minmass, pw=0.0, wseed=0, noise=noise_kind, percentile=pct)
+                try:
+                    lo, _ = run_movie(probe, withhold=False)
+                    hi, _ = run_movie(dict(probe, percentile=64), withhold=False)
+                except Exception:
+                    continue
+                if completeness(probe, lo) is None and completeness(probe, hi) is not None:
+                    frames, percentile, found = fr, pct, True
+                    break
+            if found:
+                break
+        if not found:
+            mixed = False
+        elif pw == 0.0:
+            pw = 0.6
+    if frames is None:
+        frames = render_all(lambda i: amps[i] if kind == 'dense' else amp)
     if minmass is None:
         minmass = int(0.4 * amp * 2 * math.pi * sig * sig * 0.6)
     if signed:
@@ -364,7 +400,7 @@ def gen_movie(rng, tier, kind=None):
             out.append(g)
         frames = out
     return dict(kind=kind, frames=frames, tracks=tracks, sr=sr, sep=sep, dia=dia, rad=rad, memory=mem, preprocess=pre,
-                minmass=minmass, pw=pw, wseed=rng.randint(0, 2 ** 30), noise=noise_kind)
+                minmass=minmass, pw=pw, wseed=rng.randint(0, 2 ** 30), noise=noise_kind, percentile=percentile, mixed=mixed)
 
 
 def run_movie(c, withhold=True):
@@ -398,6 +434,8 @@ def run_movie(c, withhold=True):
     frs = [G.Frame(f, t) for t, f in enumerate(c['frames'])]
     kw = dict(search_range=c['sr'], separation=c['sep'], memory=c['memory'], minmass=c['minmass'], preprocess=c['preprocess'],
               before_link=before_link)
+    if c.get('percentile', 64) != 64:
+        kw['percentile'] = c['percentile']
     if c['dia'] is not None:
         kw['diameter'] = c['dia']
     try:
@@ -439,7 +477,7 @@ def movie_term(c, rows, initial):
 def movie_json(c, rows, initial):
     wh = {str(t): [list(p) for p in v['detected'] if p not in set(v['given'])] for t, v in initial.items() if t >= 1}
     return dict(kind='movie', movie_kind=c['kind'], dtype=str(c['frames'][0].dtype), frames=[f.tolist() for f in c['frames']], search_range=c['sr'], separation=c['sep'],
-                diameter=c['dia'], memory=c['memory'], preprocess=c['preprocess'], minmass=c['minmass'], withhold=wh, noise=c.get('noise', 'none'),
+                diameter=c['dia'], memory=c['memory'], preprocess=c['preprocess'], minmass=c['minmass'], withhold=wh, noise=c.get('noise', 'none'), percentile=c.get('percentile', 64),
                 tracks=[[None if p is None else list(p) for p in tr] for tr in c['tracks']],
                 impl_output={str(t): [[list(r['pos']), r['label'], None if r['mass'] != r['mass'] else r['mass']] for r in rs] for t, rs in rows.items()})
 
@@ -447,7 +485,7 @@ def movie_json(c, rows, initial):
 def movie_from_json(j):
     return dict(kind=j['movie_kind'], frames=[np.array(f, dtype=j.get('dtype', 'uint8')) for f in j['frames']], sr=j['search_range'], sep=j['separation'],
                 dia=j['diameter'], rad=int(j['separation'] // 2) if j['diameter'] is None else j['diameter'] // 2, memory=j['memory'],
-                preprocess=j['preprocess'], minmass=j['minmass'], pw=0.0, wseed=0, withhold=j['withhold'], noise=j.get('noise', 'none'),
+                preprocess=j['preprocess'], minmass=j['minmass'], pw=0.0, wseed=0, withhold=j['withhold'], noise=j.get('noise', 'none'), percentile=j.get('percentile', 64),
                 tracks=[[None if p is None else tuple(p) for p in tr] for tr in j['tracks']])
 
 
@@ -613,7 +651,7 @@ def eval_movies(chk, movies, tag):
         nadded = sum(1 for t in rows if t >= 1 for x in rows[t] if (int(x['pos'][0]), int(x['pos'][1])) not in set(initial.get(t, dict(given=[]))['given']))
         nwith = sum(len(v['detected']) - len(v['given']) for t, v in initial.items() if t >= 1)
         chk.count(('movie', movie_json(c, rows, initial)), nadded >= 1)
-        chk.tally('movie kind=%s' % c['kind'])
+        chk.tally('movie kind=%s' % c['kind']); chk.tally('percentile=%s%s' % (c.get('percentile', 64), ' (mixed brightness)' if c.get('mixed') else ''))
         chk.tally('movie: %s' % ('features re-found' if nadded else 'nothing added'))
         chk.tally('memory=%d' % c['memory'])
         chk.tally('preprocess=%s' % c['preprocess'])
